@@ -130,6 +130,7 @@ DownTo(t, s) == IF s <= 0 THEN 0
 CursorB(t, dl) == DownTo(t, dl \div G - 1)
 
 (* ------------------------------- the walk ------------------------------------ *)
+HasFlag(t, f) == f \in SeqSet(T(t).flags)
 Members(t) == ts[t].sel                                    \* selected resources (primaries or alternatives)
 OffT(t, r, s) == IF ts[t].done = 0 /\ s = ts[t].bslot THEN ts[t].off * R(r).effN ELSE 0    \* D5
 \* A team works the same instants (D3): what the busiest member has used of the slot, or the dependency
@@ -140,11 +141,29 @@ BaseOf(r, bl) == bl \div R(r).lmul
 Base(t, r, s) == BaseOf(r, TeamBaseL(t, s))
 MemberFree(t, r, s) == OnShift(r, s) /\ Cap(r) - Base(t, r, s) > 0 /\ LimitsOk(t, r, s)
 Bookable(t, s) == Len(Members(t)) > 0 /\ \A i \in 1..Len(Members(t)) : MemberFree(t, Members(t)[i], s)
+\* --- resource availability as the look-ahead of the implementation sees it (no task limits, whole slots) ---
+ResLimKeys(r, s) == UNION {{<<"r", o, i, PeriodOf(R(o).limits[i].kind, s)>> : i \in 1..Len(R(o).limits)} : o \in {r} \cup AncR(r)}
+AvailR(r, s) == OnShift(r, s) /\ Used(r, s) < Cap(r) /\ \A k \in ResLimKeys(r, s) : Lim(k) < LimVal(k)
+SlotsNeeded(t, r) == CeilDiv(Need(t, r), Cap(r))
+RECURSIVE KthAvail(_, _, _)      \* index of the k-th available slot of r at or after s; -1 if the horizon ends first
+KthAvail(r, s, k) == IF s >= P.N THEN -1
+                     ELSE IF AvailR(r, s) THEN (IF k <= 1 THEN s ELSE KthAvail(r, s + 1, k - 1))
+                     ELSE KthAvail(r, s + 1, k)
+\* one-time choice between primaries and alternatives ("smart routing"): the candidate set whose FIRST resource would
+\* finish earlier, counting every available slot from the cursor as a whole slot; ties and failures go to the primaries
+EstEnd(t, rs, c) == IF rs = <<>> \/ T(t).effort = 0 THEN -1 ELSE KthAvail(rs[1], c, SlotsNeeded(t, rs[1]))
+ExpSel(t, c) == IF T(t).alt = <<>> THEN T(t).alloc
+                ELSE IF T(t).alloc = <<>> THEN T(t).alt
+                ELSE LET pe == EstEnd(t, T(t).alloc, c)  ae == EstEnd(t, T(t).alt, c)
+                     IN  IF ae >= 0 /\ (pe < 0 \/ ae < pe) THEN T(t).alt ELSE T(t).alloc
+\* a `contiguous` task starts only where its first primary resource has an unbroken run of available slots for all of it
+ContigOk(t, s) == LET r1 == T(t).alloc[1] IN \A j \in 0..(SlotsNeeded(t, r1) - 1) : s + j < P.N /\ AvailR(r1, s + j)
+BookableC(t, s) == Bookable(t, s) /\ ((HasFlag(t, "contiguous") /\ ts[t].done = 0 /\ Len(T(t).alloc) > 0) => ContigOk(t, s))
 IsFirstBookable(t, s) ==
-  IF Fwd(t) THEN s >= ts[t].cur /\ Bookable(t, s) /\ \A u \in ts[t].cur..(s-1) : ~Bookable(t, u)
-            ELSE s <= ts[t].cur /\ Bookable(t, s) /\ \A u \in (s+1)..ts[t].cur : ~Bookable(t, u)
-NoneBookable(t) == IF Fwd(t) THEN \A u \in ts[t].cur..(P.N - 1) : ~Bookable(t, u)
-                             ELSE \A u \in 0..ts[t].cur : ~Bookable(t, u)
+  IF Fwd(t) THEN s >= ts[t].cur /\ BookableC(t, s) /\ \A u \in ts[t].cur..(s-1) : ~BookableC(t, u)
+            ELSE s <= ts[t].cur /\ BookableC(t, s) /\ \A u \in (s+1)..ts[t].cur : ~BookableC(t, u)
+NoneBookable(t) == IF Fwd(t) THEN \A u \in ts[t].cur..(P.N - 1) : ~BookableC(t, u)
+                             ELSE \A u \in 0..ts[t].cur : ~BookableC(t, u)
 Take(t, r, s) == Cap(r) - Base(t, r, s)
 Keep(t, r) == Need(t, r) - (ts[t].done - ts[t].last)        \* ticks of the last booking that are needed
 EndTicksF(t, r, s) == s * Cap(r) + ts[t].base + Keep(t, r)   \* exact end, in ticks from project start
@@ -153,7 +172,6 @@ StartF(t, r, s) == s * G + OffT(t, r, s) \div R(r).effN      \* D4
 DateOk(dateSec, ticks, r) == 2 * Abs(dateSec * R(r).effN - ticks) <= R(r).effN                 \* D12
 
 (* ------------------------------- dialects ------------------------------------ *)
-HasFlag(t, f) == f \in SeqSet(T(t).flags)
 MaxGapSucc(t) == \E u \in Succs(t) : \E d \in AllDeps(u) : d.p = t /\ d.maxgap
 \* a task whose placement follows the plain list-scheduling rule (no waiting on purpose)
 Plain(t) == ~HasFlag(t, "contiguous") /\ ~MaxGapSucc(t) /\ ~T(t).other
